@@ -12,6 +12,8 @@ R4  resume: CONNACK with session present (received) / success (sent) enters send
 R5  PUBREL is stored when the session is persistent and awaited (pid_pubcomp.insert) on every accepted path.
 R6  a CONNACK on an established connection reaches neither send_stored nor clear_store_related.
 """
+import re
+
 import conn
 
 ADD = "GenericStore::<PacketIdType>::add"
@@ -269,4 +271,26 @@ def check(run, F, tier):
             r6.violation(f["name"], "%s with status=Connected reaches send_stored/clear_store_related" % f["name"], conn.path_summary(bad) if bad else None)
         else:
             r6.ok(f["name"], {"paths": n})
+    # ------------------------------------------------------------------ R7
+    r7 = run.rule("C06-R7", "the store keeps insertion order: no order-disturbing IndexMap operation in GenericStore", floor=1)
+    bad = []
+    n = 0
+    for g in F.fns.values():
+        if not g.get("impl_self", "").startswith("mqtt::connection::store::GenericStore<") and not (g.get("kind") == "Closure" and "connection::store::" in g["path"]):
+            continue
+        for b in g["blocks"]:
+            t = b["term"]
+            if t["k"] == "call" and "fn" in t["func"].get("const", {}):
+                fi = t["func"]["const"]["fn"]
+                if fi["path"].startswith("indexmap::"):
+                    n += 1
+                    if re.search(r"::(swap_remove\w*|swap_indices|move_index|sort\w*|reverse|pop|swap_take)$", fi["path"]):
+                        bad.append("%s calls %s" % (g["path"].split("::")[-1], fi["path"]))
+    if bad:
+        for b_ in bad:
+            r7.violation(b_.split(" calls ")[1].split("::")[-1] + "@" + b_.split(" ")[0], "GenericStore: %s (retransmission 'in store order' needs an order-preserving removal)" % b_)
+    elif n == 0:
+        r7.violation("anchor", "no IndexMap operation found in GenericStore (anchor lost)")
+    else:
+        r7.ok("indexmap-ops", {"indexmap_calls": n})
     conn.prune_path_cache(F)
